@@ -67,10 +67,15 @@ FATAL_CODES = [10, 2]                            # MESSAGE_TOO_LARGE, CORRUPT_ME
 
 
 def gen_scenario(rng, idx, *, kind="mixed", big=False):
-    """kind: 'mixed' | 'idem' | 'plain' | 'acks0' | 'clean'"""
+    """kind: 'mixed' | 'idem' | 'plain' | 'acks0' | 'clean' | 'txn' (transactional producer: several
+    transactions, committed or aborted, writing to the same partitions) | 'migrate' (leader changes while
+    replies are slow, short metadata age; any producer kind)"""
     nodes = rng.choice([1, 2, 2, 3])
     parts = rng.choice([1, 2, 3])
-    if kind == "idem":
+    txn = kind == "txn" or (kind == "migrate" and rng.random() < 0.5)
+    if kind == "migrate":
+        nodes = rng.choice([2, 3])
+    if kind == "idem" or txn:
         idem = True
     elif kind in ("plain", "acks0"):
         idem = False
@@ -90,6 +95,13 @@ def gen_scenario(rng, idx, *, kind="mixed", big=False):
         "jitter": rng.choice([0.0, 0.0005, 0.002]),
         "log_append": False, "seq0": {}, "stop_at": None, "faults": [], "tasks": [],
     }
+    if txn:
+        # a transactional producer: the step ["round", "commit" | "abort"] (same position in every task) ends
+        # a transaction; all tasks are joined, the transaction is ended, the next one begun
+        sc["txn"] = True
+        sc["produce_max"] = rng.choice([3, 5, 7, 7, 8])
+    if kind == "migrate" or (txn and rng.random() < 0.4):
+        sc["metadata_max_age_ms"] = rng.choice([30, 100, 300])
     if sc["produce_max"] >= 2 and rng.random() < 0.3:
         sc["log_append"] = True
     if idem:
@@ -107,9 +119,14 @@ def gen_scenario(rng, idx, *, kind="mixed", big=False):
     ntasks = rng.choice([1, 2, 2, 3, 4])
     nrec = rng.randrange(4, 40 if big else 16)
     ts0 = 1_600_000_000_000
+    ends = [rng.choice(["commit", "commit", "abort"]) for _ in range(rng.choice([2, 2, 3, 4]))] if txn else []
     for t in range(ntasks):
         steps = []
-        for _ in range(nrec):
+        for j in range(nrec):
+            if txn and j > 0 and j % max(1, nrec // len(ends)) == 0 and j // max(1, nrec // len(ends)) < len(ends):
+                steps.append(["round", ends[j // max(1, nrec // len(ends)) - 1]])
+            if kind == "migrate" and nodes > 1 and rng.random() < 0.15:
+                steps.append(["migrate", rng.randrange(parts), rng.randrange(nodes), rng.choice([0, 0, 1])])
             c = rng.random()
             if c < 0.70:
                 steps.append(["send", rng.randrange(parts), rng.choice([0, 0, 8, 30, 90]),
@@ -122,8 +139,10 @@ def gen_scenario(rng, idx, *, kind="mixed", big=False):
                 steps.append(["batch", rng.randrange(parts),
                               [ts0 + rng.randrange(0, 5000) for _ in range(rng.randrange(1, 4))]])
         sc["tasks"].append(steps)
+    if txn:
+        sc["last_end"] = ends[-1]
     if kind != "clean":
-        sc["faults"] = gen_faults(rng, sc)
+        sc["faults"] = gen_faults(rng, sc, slow=(kind == "migrate"))
     if any(f["kind"] == "error" and f.get("code") in FATAL_CODES for f in sc["faults"]):
         # a non-retriable reply leaves a sequence gap (every later batch is refused); the Env rule for
         # DUPLICATE_SEQUENCE_NUMBER ("last sequence below the oldest cached base") is not wrap-aware, so
@@ -131,15 +150,34 @@ def gen_scenario(rng, idx, *, kind="mixed", big=False):
         for ps, s0 in list(sc["seq0"].items()):
             if s0 > 2**31 - 5000:
                 sc["seq0"][ps] = rng.randrange(1, 2**30)
-    if rng.random() < 0.25:
+    if rng.random() < 0.25 and not txn:
         sc["stop_at"] = rng.choice([5, 20, 50, 100, 300, 1000])
     return sc
 
 
-def gen_faults(rng, sc):
+TXN_API_CODES = {"AddPartitionsToTxn": [14, 15, 16, 51], "EndTxn": [14, 15, 16, 51]}
+
+
+def gen_faults(rng, sc, slow=False):
     faults = []
-    onlyret = rng.random() < 0.85
+    onlyret = rng.random() < 0.85 or sc.get("txn")
     dens = rng.choice([0.0, 0.08, 0.2, 0.35])
+    if slow:
+        # slow replies: a batch stays unanswered for a while (less than the request timeout)
+        for nth in range(30):
+            if rng.random() < 0.3:
+                faults.append({"kind": "delay", "api": "Produce", "nth": nth, "seconds": rng.choice([0.2, 0.5, 0.9])})
+        dens = rng.choice([0.0, 0.08, 0.2])
+    if sc.get("txn"):
+        for api, codes in TXN_API_CODES.items():
+            for nth in range(8):
+                if rng.random() < dens / 2:
+                    k = rng.random()
+                    if k < 0.6:
+                        faults.append({"kind": "error", "api": api, "nth": nth, "code": rng.choice(codes)})
+                    else:
+                        faults.append({"kind": rng.choice(["drop_before", "drop_after", "delay"]), "api": api,
+                                       "nth": nth, "seconds": 0.05})
     for nth in range(40):
         if rng.random() >= dens:
             continue
@@ -215,7 +253,7 @@ def _uid_of(value):
 class Obs:
     """what one run showed"""
     __slots__ = ("sc", "trace", "outcome", "where", "pid", "epoch", "version", "recs", "results",
-                 "logs", "log_batches", "send_errors", "leftover", "wrap_fix", "notes")
+                 "logs", "log_batches", "full_logs", "send_errors", "leftover", "wrap_fix", "notes")
 
 
 def run_scenario(env, sc, max_vt=900.0):
@@ -321,6 +359,8 @@ def run_scenario(env, sc, max_vt=900.0):
         p = env.aiokafka.AIOKafkaProducer(
             bootstrap_servers=",".join(f"b{i}:9092" for i in range(sc["nodes"])), client_id="prod",
             enable_idempotence=sc["idem"], acks=("all" if sc["acks"] == -1 else sc["acks"]),
+            **({"transactional_id": "tx"} if sc.get("txn") else {}),
+            **({"metadata_max_age_ms": sc["metadata_max_age_ms"]} if sc.get("metadata_max_age_ms") else {}),
             linger_ms=sc["linger_ms"], max_batch_size=sc["batch_size"],
             request_timeout_ms=sc["request_timeout_ms"], retry_backoff_ms=sc["retry_backoff_ms"], **kw)
         try:
@@ -356,8 +396,16 @@ def run_scenario(env, sc, max_vt=900.0):
             late = [u for u in before if not recs[u]["fut"].done()]
             emit("x_wret", k=k, name=name, late=late)
 
+        tstate = {}
+
         async def task(t, steps):
-            idx = 0
+            idx = tstate.get(t, 0)
+            try:
+                return await task_(t, steps, idx)
+            finally:
+                pass
+
+        async def task_(t, steps, idx):
             for step in steps:
                 op = step[0]
                 try:
@@ -372,6 +420,7 @@ def run_scenario(env, sc, max_vt=900.0):
                                       "idx": idx, "ts": ts})
                         fut.add_done_callback(lambda f, uid=uid: on_done(uid))
                         idx += 1
+                        tstate[t] = idx
                     elif op == "batch":
                         _, part, tss = step
                         builder = p.create_batch()
@@ -390,22 +439,63 @@ def run_scenario(env, sc, max_vt=900.0):
                             trace.append({"vt": vt(), "ev": "x_acc", "uid": uid, "tp": [TOPIC, part],
                                           "task": t, "idx": idx, "ts": ts})
                             idx += 1
+                            tstate[t] = idx
                         fut.add_done_callback(lambda f, uid=uids[0][0]: on_done(uid))
                     elif op == "sleep":
                         await asyncio.sleep(step[1] / 1000)
                     elif op == "restore":
                         cluster.set_leader((TOPIC, step[1]), step[2])
+                    elif op == "migrate":
+                        if step[3]:
+                            cluster.stale_metadata(step[3])
+                        cluster.set_leader((TOPIC, step[1]), step[2])
                     elif op == "flush":
                         await waitcall("flush", p.flush())
-                except env.errors.KafkaError as ex:
+                except (env.errors.KafkaError, env.errors.IllegalOperation) as ex:
+                    # the call was refused: the record is not accepted
                     send_errors.append([t, op, type(ex).__name__])
-                    if isinstance(ex, env.errors.ProducerClosed):
+                    if isinstance(ex, (env.errors.ProducerClosed, env.errors.IllegalOperation)):
                         return
 
         async def stopper(ms):
             await asyncio.sleep(ms / 1000)
             await waitcall("stop", p.stop())
 
+        if sc.get("txn"):
+            # rounds: the k-th chunk of every task runs inside the k-th transaction
+            chunks, ends = [], []
+            for steps in sc["tasks"]:
+                cs, cur = [], []
+                for step in steps:
+                    if step[0] == "round":
+                        cs.append(cur)
+                        cur = []
+                        if len(cs) > len(ends):
+                            ends.append(step[1])
+                    else:
+                        cur.append(step)
+                cs.append(cur)
+                chunks.append(cs)
+            nround = max(len(cs) for cs in chunks)
+            ends = (ends + [sc.get("last_end", "commit")] * nround)[:nround]
+            for k in range(nround):
+                try:
+                    await p.begin_transaction()
+                    emit("x_txn", op="begin", k=k)
+                    await asyncio.gather(*[task(t, cs[k]) for t, cs in enumerate(chunks) if k < len(cs)])
+                    if ends[k] == "commit":
+                        await p.commit_transaction()
+                    else:
+                        await p.abort_transaction()
+                    emit("x_txn", op=ends[k], k=k)
+                except (env.errors.KafkaError, AssertionError) as ex:
+                    # the transaction API refused (the sender died, the transaction is in an error state ...):
+                    # an observation; what it did to the records shows in their futures and in the log
+                    send_errors.append([-1, "txn-" + ends[k], type(ex).__name__])
+                    break
+            await waitcall("stop", p.stop())
+            sweep()
+            return
         jobs = [task(t, steps) for t, steps in enumerate(sc["tasks"])]
         if sc["stop_at"] is not None:
             jobs.append(stopper(sc["stop_at"]))
@@ -437,11 +527,21 @@ def run_scenario(env, sc, max_vt=900.0):
     obs.results = results
     obs.send_errors = send_errors
     obs.leftover = cluster.leftover
-    obs.logs, obs.log_batches = {}, {}
+    obs.logs, obs.log_batches, obs.full_logs = {}, {}, {}
     tt = 1 if sc["log_append"] else 0
     for part in range(sc["parts"]):
         log = cluster.log((TOPIC, part))
         obs.logs[part] = [[off, _uid_of(value), ts, tt] for off, _k, value, ts, _h in log.read_uncommitted()]
+        # the whole log by offset, transaction markers included ("M")
+        full = []
+        for b in log.batches:
+            if b.is_control:
+                full += [[r[0], "M", 0, 2] for r in b.records]
+            else:
+                full += [[r[0], _uid_of(r[3]), r[1], tt] for r in b.records]
+        if [x[0] for x in full] != list(range(len(full))):
+            raise HarnessError(f"offsets of the simulated log of partition {part} are not dense from 0")
+        obs.full_logs[part] = full
         obs.log_batches[part] = [{"base": b.base_offset, "uids": [_uid_of(r[3]) for r in b.records],
                                   "max_ts": b.max_ts, "seq": b.base_seq} for b in log.batches if not b.is_control]
     return obs
@@ -489,6 +589,9 @@ def project(obs, part, wrap_fix):
                     evs.append("d:N")
                 else:
                     evs.append("d:X")
+        elif ev == "apply" and list(e["tp"]) == tp and e["outcome"] in ("commit_marker", "abort_marker"):
+            evs.append(f"m:{e['base_offset']}")
+            decisions[e["outcome"]] = decisions.get(e["outcome"], 0) + 1
         elif ev == "apply":
             if list(e["tp"]) == tp and e["outcome"] in ("append", "duplicate", "error"):
                 if sc["acks"] == 0:
@@ -525,11 +628,14 @@ def project(obs, part, wrap_fix):
 
 
 def truth_log(obs, part, ids):
-    """the partition log as the cluster has it, in the model's notation"""
-    return ",".join(f"{ids.get(u, BIG)}:{ts}:{tt}" for _off, u, ts, tt in obs.logs[part]) or "-"
+    """the partition log as the cluster has it (by offset, markers included), in the model's notation"""
+    return ",".join("0:0:2" if u == "M" else f"{ids.get(u, BIG)}:{ts}:{tt}"
+                    for _off, u, ts, tt in obs.full_logs[part]) or "-"
 
 
 def describe(sc):
     return {k: sc[k] for k in ("idem", "acks", "nodes", "parts", "linger_ms", "batch_size", "produce_max",
-                               "log_append", "stop_at")} | {"faults": len(sc["faults"]),
+                               "log_append", "stop_at")} | {"txn": bool(sc.get("txn")),
+                                                           "metadata_max_age_ms": sc.get("metadata_max_age_ms"),
+                                                           "faults": len(sc["faults"]),
                                                            "records": sum(1 for t in sc["tasks"] for s in t if s[0] in ("send", "batch"))}
